@@ -19,7 +19,8 @@
 (*                                     sub-command name)                   *)
 (*           [k |-> "opt", n, v]       --n=<text of v>                     *)
 (*           [k |-> "cfg", m |-> m]    --config=<json of m>, m a map       *)
-(*                                     name -> value | [k |-> "map", m]    *)
+(*                                     name -> value | [k |-> "map", m];   *)
+(*                                     the key "subcommand" selects        *)
 (*   aspos   auto_cli(as_positional=...)                                   *)
 (*                                                                         *)
 (* Two layers.                                                             *)
@@ -46,6 +47,8 @@ VInt(n)  == [k |-> "int",  i |-> n]
 VStr(s)  == [k |-> "str",  s |-> s]
 VBool(b) == [k |-> "bool", b |-> b]
 VList(s) == [k |-> "list", l |-> s]          \* list of ints
+VDict(d) == [k |-> "dict", d |-> d]          \* Dict[str, int]: name -> int
+VTup(i, s) == [k |-> "tup", ti |-> i, ts |-> s]   \* Tuple[int, str]
 VEnum(n) == [k |-> "enum", e |-> n]          \* member of the generated Enum, by name
 VNull    == [k |-> "null"]                   \* Python None
 NoVal    == [k |-> "none"]                   \* absence (inspect._empty / key not in cfg); not a Python value
@@ -61,6 +64,9 @@ RECURSIVE ListText(_, _)
 ListText(l, i) == IF i > Len(l) THEN "" ELSE (IF i > 1 THEN "," ELSE "") \o ToString(l[i]) \o ListText(l, i + 1)
 Text(v) == CASE v.k = "str"  -> v.s
              [] v.k = "list" -> "[" \o ListText(v.l, 1) \o "]"
+             [] v.k = "tup"  -> "[" \o ToString(v.ti) \o ",\"" \o v.ts \o "\"]"
+             [] v.k = "dict" -> IF DOMAIN v.d = {} THEN "{}"                      \* (dicts on the command line have at most one key)
+                                ELSE LET key == CHOOSE x \in DOMAIN v.d : TRUE IN "{\"" \o key \o "\":" \o ToString(v.d[key]) \o "}"
              [] v.k = "int"  -> ToString(v.i)
              [] v.k = "bool" -> (IF v.b THEN "true" ELSE "false")
              [] v.k = "null" -> "null"
@@ -72,8 +78,10 @@ ConvBase(t, v, src) ==
   CASE t = "int"     -> IF v.k = "int"  THEN v ELSE Bad
     [] t = "bool"    -> IF v.k = "bool" THEN v ELSE Bad
     [] t = "listint" -> IF v.k = "list" THEN v ELSE Bad
+    [] t = "dictint" -> IF v.k = "dict" THEN v ELSE Bad
+    [] t = "tupis"   -> IF v.k = "tup"  THEN v ELSE Bad
     [] t = "enum"    -> IF v.k = "str" /\ v.s \in EnumMembers THEN VEnum(v.s) ELSE Bad
-    [] t = "str"     -> IF src = "argv" THEN (IF v.k \in {"str", "int", "bool", "null", "list"} THEN VStr(Text(v)) ELSE Bad)
+    [] t = "str"     -> IF src = "argv" THEN (IF v.k \in {"str", "int", "bool", "null", "list", "dict", "tup"} THEN VStr(Text(v)) ELSE Bad)
                         ELSE (IF v.k = "str" THEN v ELSE Bad)
     [] OTHER         -> Bad
 Conv(t, v, src) == IF IsOpt(t) THEN (IF v.k = "null" THEN VNull ELSE ConvBase(Unopt(t), v, src)) ELSE ConvBase(t, v, src)
@@ -171,6 +179,8 @@ RefCfgAsgI(cs, lvl, m, ks, i) ==
   ELSE LET n == ks[i]
            one == IF m[n].k = "map"
                   THEN (IF n \in LvlSubs(cs, lvl) THEN RefCfgAsg(cs, lvl \o <<n>>, m[n].m) ELSE <<Asg(lvl, n, Bad, "bad")>>)
+                  ELSE IF n = "subcommand" /\ LvlSubs(cs, lvl) # {}                          \* the selection written inside the config
+                  THEN (IF m[n].k = "str" /\ m[n].s \in LvlSubs(cs, lvl) THEN <<Asg(lvl, "subcommand", m[n], "selc")>> ELSE <<Asg(lvl, n, Bad, "bad")>>)
                   ELSE (IF RefIsSetting(cs, lvl, n) THEN <<Asg(lvl, n, m[n], "cfg")>> ELSE <<Asg(lvl, n, Bad, "bad")>>)
        IN one \o RefCfgAsgI(cs, lvl, m, ks, i + 1)
 RefCfgAsg(cs, lvl, m) == RefCfgAsgI(cs, lvl, m, SetToSeq(DOMAIN m), 1)
@@ -195,14 +205,16 @@ RefScan(cs, toks, lvl, np, acc) ==
 RefAsgs(cs) == RefScan(cs, cs.argv, << >>, 0, << >>)
 
 \* the selected chain of levels: an explicit sub-command word, else the sub-command that has settings
-RefHasSettings(as, lvl) == \E i \in 1..Len(as) : as[i].src = "cfg" /\ IsPrefixSeq(lvl, as[i].lvl)
+RefHasSettings(as, lvl) == \E i \in 1..Len(as) : as[i].src \in {"cfg", "selc"} /\ IsPrefixSeq(lvl, as[i].lvl)
 RECURSIVE RefSelect(_, _, _)
-RefSelect(cs, as, lvl) ==       \* the set of possible selected leaf levels below lvl ({} = no sub-command selected)
+RefSelect(cs, as, lvl) ==       \* the set of possible selected levels below lvl (a level that still has sub-commands = dead end)
   IF LvlSubs(cs, lvl) = {} THEN {lvl}
-  ELSE LET expl == {as[i].v.s : i \in {j \in 1..Len(as) : as[j].src = "sel" /\ as[j].lvl = lvl}}
+  ELSE LET sels == {j \in 1..Len(as) : as[j].src \in {"sel", "selc"} /\ as[j].lvl = lvl}
+           expl == {as[i].v.s : i \in {j \in sels : \A j2 \in sels : j2 <= j}}          \* the last selection wins
            impl == {s \in LvlSubs(cs, lvl) : RefHasSettings(as, lvl \o <<s>>)}
            cand == IF expl # {} THEN expl ELSE impl
-       IN UNION {RefSelect(cs, as, lvl \o <<s>>) : s \in cand}
+       IN IF cand = {} THEN {lvl}                  \* no sub-command selected below lvl: this chain ends in a rejection
+          ELSE UNION {RefSelect(cs, as, lvl \o <<s>>) : s \in cand}
 
 RefGiven(as, lvl, n) == {i \in 1..Len(as) : as[i].lvl = lvl /\ as[i].n = n /\ as[i].src \in {"argv", "cfg"}}
 RefLast(as, lvl, n)  == as[CHOOSE i \in RefGiven(as, lvl, n) : \A j \in RefGiven(as, lvl, n) : j <= i]
@@ -287,6 +299,8 @@ AlgApplyCfgI(cs, lvl, m, acc, ks, i) ==
   ELSE LET n == ks[i]
            nxt == IF m[n].k = "map"
                   THEN (IF n \in LvlSubs(cs, lvl) THEN AlgApplyCfg(cs, lvl \o <<n>>, m[n].m, acc) ELSE BadCfg)
+                  ELSE IF n = "subcommand" /\ LvlSubs(cs, lvl) # {}       \* dest of the sub-commands action: kept as it is (:1357-1365)
+                  THEN (IF m[n].k = "str" /\ m[n].s \in LvlSubs(cs, lvl) THEN Put(acc, lvl \o <<"subcommand">>, m[n]) ELSE BadCfg)
                   ELSE IF HasAction(cs, lvl, n)
                        THEN LET val == Conv(ActionOf(cs, lvl, n).t, m[n], "cfg") IN IF val = Bad THEN BadCfg ELSE Put(acc, lvl \o <<n>>, val)
                        ELSE BadCfg                                                       \* NSKeyError at validation
